@@ -210,7 +210,13 @@ func (ex *Exec) checkPost(fr *Frame, st *State, vs []*Val, k int, pos string) {
 		if c.Cfg != "" && c.Cfg != ex.p.cfgName {
 			continue
 		}
-		cj := ex.goalCtx(fr, st, ex.oldState, env).conjuncts(c.Expr)
+		gc := ex.goalCtx(fr, st, ex.oldState, env)
+		if c.AtReturn > 0 {
+			// atentry(e) in a return-specific clause: e at the entry of the innermost loop from which this
+			// return site is reached
+			gc.loopPre = ex.loopPreForReturn(fr)
+		}
+		cj := gc.conjuncts(c.Expr)
 		for j, x := range cj {
 			nm := fmt.Sprintf("post[%s]@return[%d]", clauseLabel(c, i), k)
 			if len(cj) > 1 {
@@ -223,4 +229,35 @@ func (ex *Exec) checkPost(fr *Frame, st *State, vs []*Val, k int, pos string) {
 
 func describeFunc(key string) string {
 	return strings.TrimPrefix(key, modulePathDefault+"/")
+}
+
+
+// loopPreForReturn finds the loop a return site belongs to: walking predecessors backwards from the current
+// block, the first block that lies in a loop body decides; among the loops containing it the innermost wins.
+func (ex *Exec) loopPreForReturn(fr *Frame) *State {
+	if fr.curBlock == nil {
+		return nil
+	}
+	seen := map[*ssa.BasicBlock]bool{fr.curBlock: true}
+	queue := []*ssa.BasicBlock{fr.curBlock}
+	for len(queue) > 0 {
+		b := queue[0]
+		queue = queue[1:]
+		var best *loopInfo
+		for _, l := range fr.loops {
+			if l.body[b] && l.pre != nil && (best == nil || len(l.body) < len(best.body)) {
+				best = l
+			}
+		}
+		if best != nil {
+			return best.pre
+		}
+		for _, p := range b.Preds {
+			if !seen[p] {
+				seen[p] = true
+				queue = append(queue, p)
+			}
+		}
+	}
+	return nil
 }
